@@ -183,6 +183,12 @@ func needNewLineAfter(node Node) bool {
 	}
 }
 
+// Whatever follows a line comment on the same line is part of it: '//' newline ';//' is two comments.
+func isLineComment(node Node) bool {
+	c, ok := node.(*Comment)
+	return ok && c.Type() == token.LINECOMMENT
+}
+
 func isComment(node Node) bool {
 	_, ok := node.(*Comment)
 	return ok
@@ -255,7 +261,7 @@ func printStatement(ps *PrintState, s Node, wrap bool) {
 // Normal/long form print: Decide if using new line or space as separator.
 func prettyPrintLongForm(ps *PrintState, s Node, i int) {
 	if i > 0 || ps.IndentLevel > 1 {
-		if keepSameLineAsPrevious(s) || !needNewLineAfter(ps.prev) {
+		if !isLineComment(ps.prev) && (keepSameLineAsPrevious(s) || !needNewLineAfter(ps.prev)) {
 			log.Debugf("=> PrettyPrint adding just a space")
 			_, _ = ps.Out.Write([]byte{' '})
 			ps.IndentationDone = true
